@@ -12,7 +12,7 @@ from ..harness import Mismatch, hyp_run, impl
 ID = "C13"
 LEVEL = "exploration"
 RULE = (
-    "Exhaustive: all tree shapes over n<=5 decaying particles (multiplicities <=2; for n<=4 also with a particle re-occurring below "
+    "Exhaustive: all tree shapes over n<=5 (thorough: n<=6) decaying particles (multiplicities <=2; for n<=4 also with a particle re-occurring below "
     "a second parent) over names containing parentheses, quotes, signs and stars, x every permutation of the sub-decay "
     "mapping, x daughter lists reversed. Hypothesis: chains with <=8 decaying particles over real EvtGen names and synthetic "
     "names with balanced parentheses, and a family of patterns {mother} ARROW {daughters} / OPEN{mother} ARROW {daughters}CLOSE "
@@ -168,9 +168,11 @@ def replay(case, rec):
     check_case(case, rec)
 
 
-def enum_unit(n, second, rec):
+def enum_unit(n, second, rec, slice_=None):
     count = nt = 0
-    for shape in C.enum_shapes(n, 2, second):
+    for k_, shape in enumerate(C.enum_shapes(n, 2, second)):
+        if slice_ is not None and k_ % slice_[1] != slice_[0]:
+            continue
         s, want = None, None
         for perm in itertools.permutations(range(n)):
             for rev in (False, True):
@@ -198,12 +200,14 @@ def units(tier, seed):
     quick = tier == "quick"
     u = [{"name": f"enum-n{n}", "kind": "enum", "n": n, "second": True} for n in (1, 2, 3, 4)]
     u.append({"name": "enum-n5", "kind": "enum", "n": 5, "second": False})
+    if not quick:
+        u += [{"name": f"enum-n6-{k}", "kind": "enum", "n": 6, "second": False, "slice": [k, 8]} for k in range(8)]
     u += [{"name": f"hyp{k:02d}", "kind": "hyp", "n": 300 if quick else 5000} for k in range(12)]
     return u
 
 
 def run_unit(unit, seed, rec, tier):
     if unit["kind"] == "enum":
-        enum_unit(unit["n"], unit["second"], rec)
+        enum_unit(unit["n"], unit["second"], rec, unit.get("slice"))
     else:
         hyp_run(rec, gen_case(), check_case, unit["n"], seed)
